@@ -217,7 +217,8 @@ def check_weights(case):
     efarr = np.array(efs, dtype=float)
     der = case["der"]
     acc = case["accurate"]
-    w = weights_tetra(efarr.copy(), given[0], given[1], given[2], given[3], der=der, accurate=acc)
+    kw = dict(der=der) if acc else dict(der=der, accurate=False)  # accurate omitted = the call made by TetraWeights
+    w = weights_tetra(efarr.copy(), given[0], given[1], given[2], given[3], **kw)
     w = np.array(w, dtype=float)
     if w.shape != efarr.shape:
         raise Violation("shape", f"{w.shape} != {efarr.shape}")
@@ -225,7 +226,7 @@ def check_weights(case):
     # --- bitwise independence of the corner order (the code sorts first: same arithmetic on same numbers)
     for p in itertools.permutations(range(4)):
         g2 = [es[i] for i in p]
-        w2 = weights_tetra(efarr.copy(), g2[0], g2[1], g2[2], g2[3], der=der, accurate=acc)
+        w2 = weights_tetra(efarr.copy(), g2[0], g2[1], g2[2], g2[3], **kw)
         if not np.array_equal(np.asarray(w2), w, equal_nan=True):
             raise Violation("corner-order", f"{desc}: order {g2} gives {np.asarray(w2).tolist()} instead of {w.tolist()}")
     eF = [Fraction(x) for x in es]
@@ -317,7 +318,7 @@ def check_weights(case):
             if nodes is None:
                 break
         if nodes is not None and tol_int < 1e-6:
-            vals = np.asarray(weights_tetra(np.array(nodes), given[0], given[1], given[2], given[3], der=1, accurate=acc))
+            vals = np.asarray(weights_tetra(np.array(nodes), given[0], given[1], given[2], given[3], der=1))
             tot = float(np.dot(vals, wts))
             if abs(tot - 1.0) > tol_int + 1e-12:
                 raise Violation("integral-of-der1", f"{desc}: Gauss integral of dw/dE over the three pieces = {tot!r}")
@@ -668,9 +669,11 @@ def check_cumdos(case):
     return ok(partial, case["grid"], f"nw={nw}", "spin-doubled" if case["spin"] else None)
 
 
+# cumdos first: its first case triggers the numba compilation of weights_tetra (5 s idle, much longer on a loaded
+# machine) so that the compile time is not charged to the budget of the large pure-function subs
 SUBS = [
-    Sub("weights", weights_case_st, check_weights, quick=6000, thorough=240000, budget_quick=70, budget_thorough=420),
-    Sub("paral", paral_st, check_paral, quick=600, thorough=16000, budget_quick=60, budget_thorough=420),
-    Sub("groups", groups_st, check_groups, quick=1200, thorough=40000, budget_quick=60, budget_thorough=420),
-    Sub("cumdos", _cumdos_strategy(), check_cumdos, quick=40, thorough=640, budget_quick=70, budget_thorough=420),
+    Sub("cumdos", _cumdos_strategy(), check_cumdos, quick=40, thorough=640, budget_quick=80, budget_thorough=420),
+    Sub("weights", weights_case_st, check_weights, quick=6000, thorough=240000, budget_quick=120, budget_thorough=420),
+    Sub("paral", paral_st, check_paral, quick=600, thorough=16000, budget_quick=50, budget_thorough=420),
+    Sub("groups", groups_st, check_groups, quick=1200, thorough=40000, budget_quick=50, budget_thorough=420),
 ]
